@@ -43,6 +43,7 @@ var (
 	harness  = flag.String("harness", "", "comma separated pkgpath=dir: harness files to overlay into the package")
 	hideTest = flag.Bool("hidetests", true, "hide the packages' own _test.go files")
 	extraOv  = flag.String("overlay-extra", "", "comma separated dst=src extra overlay entries")
+	memFlag  = flag.String("mempts", "", "comma separated import paths, or importpath:file.go, whose stores to shared memory (assignments through a selector, index or pointer) are followed by a scheduling point")
 	derive   = flag.Bool("derive-startsim", false, "derive (*Server).startSim from the repository's Server.Start (package server)")
 )
 
@@ -52,7 +53,7 @@ func die(format string, a ...any) {
 }
 
 type stats struct {
-	Go, Lock, Unlock, Recv, Send, Select, RangeChan, RangeMap, RangeMapSkipped, RangeMapAtomic, WGWait, Sleep, AfterFunc, Ticker, FS, Atomic int
+	Go, Lock, Unlock, Recv, Send, Select, RangeChan, RangeMap, RangeMapSkipped, RangeMapAtomic, WGWait, Sleep, AfterFunc, Ticker, FS, Atomic, Mem int
 }
 
 type rewriter struct {
@@ -61,6 +62,7 @@ type rewriter struct {
 	fset        *token.FileSet
 	st          *stats
 	fs          bool
+	mem         bool
 	n           int
 	fsN         map[string]int
 	curFn       string
@@ -80,6 +82,12 @@ func main() {
 	for _, p := range strings.Split(*fsPkgs, ",") {
 		if p != "" {
 			fsSet[p] = true
+		}
+	}
+	memSet := map[string]bool{}
+	for _, p := range strings.Split(*memFlag, ",") {
+		if p != "" {
+			memSet[p] = true
 		}
 	}
 	cfg := &packages.Config{
@@ -124,6 +132,7 @@ func main() {
 		for i, f := range p.Syntax {
 			name := p.CompiledGoFiles[i]
 			rw := &rewriter{pkg: p, info: p.TypesInfo, fset: p.Fset, st: st, fs: fsSet[p.PkgPath], fsN: map[string]int{}, prelude: map[*ast.BlockStmt]bool{}}
+			rw.mem = memSet[p.PkgPath] || memSet[p.PkgPath+":"+filepath.Base(name)]
 			changed := rw.file(f)
 			skipped = append(skipped, rw.skippedMaps...)
 			if !changed {
@@ -524,6 +533,11 @@ func (rw *rewriter) file(f *ast.File) bool {
 			changed = true
 		}
 	}
+	if rw.mem {
+		if rw.memPoints(f) {
+			changed = true
+		}
+	}
 	if changed {
 		astutil.AddNamedImport(rw.fset, f, "simrt", "verif.local/simrt")
 		for _, imp := range []string{"time", "sync", "math/rand"} {
@@ -868,6 +882,89 @@ func (rw *rewriter) fsPoints(f *ast.File) bool {
 				}
 				return true
 			})
+		}
+		fd.Body.List = doList(fd.Body.List)
+	}
+	return changed
+}
+
+// sharedStore reports whether the statement stores through a selector, an index or a pointer: memory that
+// other goroutines may reach (a struct field, a slice or array element, a map entry, a pointee).
+func sharedStore(s ast.Stmt) bool {
+	shared := func(e ast.Expr) bool {
+		for {
+			if p, ok := e.(*ast.ParenExpr); ok {
+				e = p.X
+				continue
+			}
+			break
+		}
+		switch e.(type) {
+		case *ast.SelectorExpr, *ast.IndexExpr, *ast.StarExpr:
+			return true
+		}
+		return false
+	}
+	switch x := s.(type) {
+	case *ast.AssignStmt:
+		if x.Tok == token.DEFINE {
+			return false
+		}
+		for _, l := range x.Lhs {
+			if shared(l) {
+				return true
+			}
+		}
+	case *ast.IncDecStmt:
+		return shared(x.X)
+	}
+	return false
+}
+
+// memPoints puts a scheduling point (simrt.MemPt, declined at the lock-yield rate) behind every statement
+// that stores to memory other goroutines may reach. Check-then-act and multi-word updates on data that is
+// shared without a lock are then preempted half-way, which locks, channels and atomics alone never do.
+func (rw *rewriter) memPoints(f *ast.File) bool {
+	changed := false
+	var doList func(list []ast.Stmt) []ast.Stmt
+	var visit func(n ast.Node)
+	doList = func(list []ast.Stmt) []ast.Stmt {
+		var out []ast.Stmt
+		for _, s := range list {
+			visit(s)
+			out = append(out, s)
+			st := s
+			if l, ok := st.(*ast.LabeledStmt); ok {
+				st = l.Stmt
+			}
+			if sharedStore(st) {
+				out = append(out, &ast.ExprStmt{X: call(sel("MemPt"))})
+				rw.st.Mem++
+				changed = true
+			}
+		}
+		return out
+	}
+	visit = func(n ast.Node) {
+		ast.Inspect(n, func(m ast.Node) bool {
+			switch b := m.(type) {
+			case *ast.BlockStmt:
+				b.List = doList(b.List)
+				return false
+			case *ast.CaseClause:
+				b.Body = doList(b.Body)
+				return false
+			case *ast.CommClause:
+				b.Body = doList(b.Body)
+				return false
+			}
+			return true
+		})
+	}
+	for _, d := range f.Decls {
+		fd, ok := d.(*ast.FuncDecl)
+		if !ok || fd.Body == nil {
+			continue
 		}
 		fd.Body.List = doList(fd.Body.List)
 	}
